@@ -3,13 +3,14 @@ import json
 import os
 
 COMMON_ASSUMPTIONS = [
-    "pyvc is a home-made VC generator: its encoding of Python semantics (DESIGN.md section 2) is trusted, cross-checked against CPython by selftest/",
+    "pyvc is a home-made VC generator: its encoding of Python semantics (DESIGN.md section 2) is trusted; guards: 'ensures False' canaries on every unit, "
+    "library-contract conformance against the real numpy/Python (selftest/, thorough tier), 38 independently seeded property-breaking changes (seeded/)",
     "numpy int64 arithmetic treated as mathematical integers (no overflow: vertex indices < 4^k, k <= 31; position sums < 2^63)",
     "running time, memory, interpreter start-up, the datetime-dependent text of Monitor are not modelled",
 ]
 
 
-def write(here, pid, P, tier, seed, proof, bounded, n_viol, known_lines, undecided, errors, wall):
+def write(here, pid, P, tier, seed, proof, bounded, n_viol, known_lines, undecided, errors, wall, selftests=None):
     cov = {}
     ev = sum(b["evaluations"] for b in bounded)
     dn = sum(b["distinct_nontrivial"] for b in bounded)
@@ -47,6 +48,8 @@ def write(here, pid, P, tier, seed, proof, bounded, n_viol, known_lines, undecid
     else:
         if level == "proof":
             level = "other"
+    if selftests:
+        cov["selftests"] = selftests
     cov["trusted_base"] = trusted
     cov["samples"] = samples or [{"note": "no case explored"}]
     cov["explanation"] = P["explanation"] + (
